@@ -384,6 +384,25 @@ func (m *M) corpusElements(prop string) {
 	n := 0
 	for _, e := range loadCorpus("field") {
 		as := e.arrays()
+		if len(as) > 0 && e.Func == "ToMontgomery" && prop == "C03" && as[0].Cmp(bigP) < 0 {
+			// the conversion of a coordinate AS IT ARRIVES: a point with this very x (or y)
+			v := as[0]
+			var enc []byte
+			if y := curveY(v); y != nil {
+				enc = append([]byte{byte(2 + y.Bit(0))}, be32(v)...)
+			} else if px, py := pointWithY(v); px != nil {
+				enc = append(append([]byte{4}, be32(px)...), be32(py)...)
+			}
+			if enc != nil {
+				if n%10 == 0 {
+					m.reset()
+				}
+				n++
+				m.class("corpus:carry_sites")
+				m.EDecodeForm(0, "any", enc)
+			}
+			continue
+		}
 		if len(as) == 0 || (e.Func != "Mul" && e.Func != "Square" && e.Func != "Add" && e.Func != "Sub") {
 			continue
 		}
